@@ -60,6 +60,8 @@ use traversal::{
 };
 
 pub use transform::Transform;
+#[cfg(googlefonts_fontations_verif)]
+pub use traversal::verif as traversal_verif;
 
 use crate::prelude::{LocationRef, Size};
 
